@@ -321,20 +321,33 @@ Definition dns64_ttl (neg : option (piece * Z)) (addrs : list piece) (consulted 
    alias chain, authority and additional sections become the reply to the AAAA
    question) and handlePTR (5.3.1: a CNAME derived from configuration with the
    constant ptrSynthTTL, then the PTR records of the in-addr.arpa sub-answer)
-   copy the RR values of the sub-answer: every relayed record keeps the TTL the
-   answer it sits in showed (a cache hit: shown_ttl of that entry; fresh: the
+   copy the RR values of the sub-answer: every relayed record starts from the TTL
+   the answer it sits in showed (a cache hit: shown_ttl of that entry; fresh: the
    upstream TTL).  [recs] lists, per relayed record in reply order, the piece it
    was copied from.  The AAAA answer that gated an A-basis reply contributes no
    record; like every consulted piece it folds into the request tree's bound. *)
 Definition dns64_relay_ttls (recs : list piece) (now : Z) : list Z :=
   map (fun p => piece_ttl p now) recs.
-Definition dns64_basis_reply (recs : list piece) (now : Z) : list Z := dns64_relay_ttls recs now.
 Definition dns64_ptr_reply (recs : list piece) (now : Z) : list Z :=
   dns64_ptr_synth_ttl :: dns64_relay_ttls recs now.
-(* the A-basis reply as repaired by props/C04/fix2.patch (finding dns64-abasis-gate; not in
-   /repo yet): every relayed TTL capped by the request tree's bound, as synthesise does *)
-Definition dns64_basis_reply_capped (recs consulted : list piece) (now : Z) : list Z :=
-  map (fun p => dns64_cap (dns64_bound None consulted) now (piece_ttl p now)) recs.
+(* the A-basis reply before 1a0e74f (finding dns64-abasis-gate): the relayed TTLs as they are.
+   Kept as the reason for the cap (Example dns64_basis_uncapped_outlives_gate). *)
+Definition dns64_basis_reply_uncapped (recs : list piece) (now : Z) : list Z := dns64_relay_ttls recs now.
+(* capRelayedTTLs (1a0e74f): `cut := ResponseMetaFrom(w.ctx).CutUntil(); if cut.IsZero() return;
+   left = max(0, time.Until(cut)); secs = left / 1 s; every non-OPT record of the three sections
+   with Ttl > secs gets secs` -- the cap of synthesise with the divisor as written in
+   capRelayedTTLs (srcgen dns64_relay_cap_unit) *)
+Definition dns64_relay_cap (b : option Z) (now ttl : Z) : Z :=
+  match b with
+  | None => ttl
+  | Some c => let left := if c - now <? 0 then 0 else c - now in
+              let secs := left / dns64_relay_cap_unit in
+              if secs <? ttl then secs else ttl
+  end.
+(* the A-basis reply (buildAResponseAsBasis since 1a0e74f): every relayed TTL capped by the
+   request tree's bound, which every consulted answer -- the gate included -- folded *)
+Definition dns64_basis_reply (recs consulted : list piece) (now : Z) : list Z :=
+  map (fun p => dns64_relay_cap (dns64_bound None consulted) now (piece_ttl p now)) recs.
 
 (* ------------------------------------------------------------------ *)
 (** * 5. The store: set / remove / pointer-CAS                          *)
